@@ -1,8 +1,35 @@
-//! Group driver: runs the REAL kanidm code and records observed traces (ndjson) which TLC
-//! validates against the TLA+ specifications in /verif/spec. See /verif/DESIGN.md.
-use kvc::util::Opts;
+//! Group driver `unix`: runs the REAL kanidm client-side integration code (resolver, PAM core, RADIUS
+//! module logic, actor runtime) and records observed traces (ndjson) which TLC validates against the
+//! TLA+ specifications in /verif/spec (KUnix, KActors). See /verif/DESIGN.md section 6, C43-C47.
+// kvc::util compiled directly into this crate: kv-unix does not link kanidmd_lib (its code under test lives in
+// other crates), so its build is independent of the in-lib accessor files of the other groups.
+#[path = "../../common/src/util.rs"]
+pub mod util;
+use util::Opts;
+
+// Leaf source files of the repository compiled into this crate (see build.rs). `logic.rs` refers to
+// `crate::error`, `core.rs` to `crate::{constants, module, pam}`: provide those names at the crate root.
+include!(concat!(env!("OUT_DIR"), "/repo_mods.rs"));
+pub mod constants {
+    pub use pam_sparkle_common::pam::constants::*;
+}
+pub mod module {
+    pub use pam_sparkle_common::pam::module::*;
+}
+pub mod pam {
+    pub use pam_sparkle_common::pam::*;
+}
+
+mod http;
+mod unixenv;
+mod c45;
+mod c46;
+mod c47;
 
 fn main() {
+    // The kanidm client refuses (process::exit) a server without its version header in debug builds;
+    // the scripted endpoint sends the right header, this is only a belt-and-braces guard.
+    std::env::set_var("KANIDM_DEV_YOLO", "1");
     let args: Vec<String> = std::env::args().collect();
     if args.len() < 2 {
         eprintln!("usage: {} <subcommand> [--key value ...]", args[0]);
@@ -10,8 +37,10 @@ fn main() {
     }
     let opts = Opts::parse(&args[2..]);
     let rc = match args[1].as_str() {
+        "c45" => c45::run(&opts),
+        "c46" => c46::run(&opts),
+        "c47" => c47::run(&opts),
         other => {
-            let _ = &opts;
             eprintln!("unknown subcommand {other}");
             2
         }
